@@ -4,6 +4,9 @@ package c17
 import (
 	"fmt"
 	"os"
+	"path/filepath"
+	"strings"
+	"sync"
 	"time"
 
 	"verif/lib/vk"
@@ -30,5 +33,50 @@ func runExtPhases(r *vk.Run, th bool) extResult {
 		res.info["json_structural_mutants"] = info
 		fmt.Printf("phase F (structural JSON mutants): %d seeds of %d codecs, %d mutants, %d accepted (distinct) in %.1fs\n", info["seeds"], info["codecs"], e, n, time.Since(t0).Seconds())
 	}
+	if os.Getenv("C17_XGROUP") == "" && os.Getenv("C17_JSONMUT") == "" || os.Getenv("C17_PATHS2") != "" {
+		t0 = time.Now()
+		e, n, info = pathPhase2(r, th)
+		res.evals += e
+		res.nontrivial += n
+		res.info["paths_headers_extensible_notary_and_compression_threshold"] = info
+		fmt.Printf("phase G (paths of headers / extensibles / notary requests, compression threshold): %v, %d threshold cases, %d evaluations in %.1fs\n", info["path_cases_by_kind"], info["threshold_cases"], e, time.Since(t0).Seconds())
+	}
 	return res
+}
+
+// violate reports a violation. Development aid: with C17_DEV_KNOWN=1 the keys
+// listed in PROPOSED_KNOWN_FINDINGS.txt (next to the sources, not yet copied
+// into /verif/KNOWN_FINDINGS.txt by the lead) are only counted, so that a
+// development run shows what else fires. Normal runs do not read that file.
+var devKnown = sync.OnceValue(func() []string {
+	if os.Getenv("C17_DEV_KNOWN") == "" {
+		return nil
+	}
+	b, err := os.ReadFile(filepath.Join(vk.Root(), "checks", "c17", "PROPOSED_KNOWN_FINDINGS.txt"))
+	if err != nil {
+		return nil
+	}
+	var out []string
+	for _, l := range strings.Split(string(b), "\n") {
+		f := strings.Fields(l)
+		if len(f) >= 2 && strings.HasPrefix(f[0], "property=") && strings.HasPrefix(f[1], "key=") {
+			out = append(out, strings.TrimPrefix(f[1], "key="))
+		}
+	}
+	return out
+})
+
+var devKnownHits sync.Map
+
+func violate(r *vk.Run, key string, detail any) {
+	k := strings.ReplaceAll(key, " ", "_")
+	for _, p := range devKnown() {
+		if p == k || strings.HasSuffix(p, "*") && strings.HasPrefix(k, strings.TrimSuffix(p, "*")) {
+			if _, seen := devKnownHits.LoadOrStore(p, true); !seen {
+				fmt.Println("PROPOSED-KNOWN:", p)
+			}
+			return
+		}
+	}
+	r.Violation(key, detail)
 }
